@@ -27,7 +27,7 @@ SPEC = dict(
     assumptions=["programs limited to the shapes in this file", "sweeps observed through tensor hooks and torch._C._functorch introspection"],
 )
 
-SHAPES = ("one", "two", "three", "nonlin", "scalars", "mixed2d")
+SHAPES = ("one", "two", "three", "nonlin", "scalars", "mixed2d", "mixed-dtype")
 
 
 def gen_cases(tier, seed):
@@ -71,6 +71,8 @@ def _build_bw(shape, m, seed, novmap):
         outs = [torch.sin(y) * b]
     elif shape == "scalars":
         outs = [y[i] for i in range(m)]
+    elif shape == "mixed-dtype":  # float64 parameters, float32 outputs (mixed precision): the Jacobian has the parameters' dtype
+        outs = [y.float()]
     else:  # mixed2d: a 0-d, and the rest 2-d when even else 1-d
         rest = y[1:]
         if rest.numel() % 2 == 0:
@@ -137,7 +139,7 @@ def run_case(case):
         gts, off = [], 0
         for o in T["outs"]:
             n = o.numel()
-            gts.append(torch.tensor(w[off:off + n], dtype=torch.float64).reshape(o.shape))
+            gts.append(torch.tensor(w[off:off + n], dtype=o.dtype).reshape(o.shape))
             off += n
         torch.autograd.backward(T["outs"], grad_tensors=gts, inputs=T["params"])
     else:
@@ -185,6 +187,22 @@ def run_case(case):
                         if not (float((gi - ri).abs().max()) <= 1e-9 * sc):
                             viol.append(dict(sig=f"value-differs-across-k:{ep}", cls=f"acrossk:{ep}", msg=f"{desc}: got {gi.tolist()} with k=None {ri.tolist()}"))
                             break
+            if not rg and aggname == "const":
+                # the graph must be freed exactly as torch.autograd.backward(retain_graph=False) frees it on the twin
+                # (all but the last sweep retain it, the last one uses the caller's flag)
+                def _again(Bx):
+                    ts = Bx["outs"] if ep == "bw" else Bx["losses"]
+                    try:
+                        torch.autograd.grad(ts, Bx["params"], grad_outputs=[torch.ones_like(t_) for t_ in ts], allow_unused=True)
+                        return "ok"
+                    except RuntimeError:
+                        return "freed"
+                if "twin_after" not in results:
+                    results["twin_after"] = _again(T)
+                mine = _again(B)
+                if mine != results["twin_after"]:
+                    viol.append(dict(sig=f"graph-freeing-differs-from-autograd:{ep}", cls=f"freeing:{ep}:{'None' if k is None else 'k'}",
+                                     msg=f"{desc}: a further differentiation after the call: {mine}; after torch.autograd.backward on the twin: {results['twin_after']}"))
             if rg:
                 # graph must still be usable: an identical second call adds the same update
                 try:
